@@ -61,6 +61,20 @@ IntroMergeResult(sd, r, snap, ins, newSid, newDocs, newIsFile) ==
   IN [ segs |-> IF skipped THEN stay ELSE Append(stay, [sid |-> newSid, del |-> newdel, f |-> newIsFile]),
        skipped |-> skipped, dropped |-> droppedFiles, newdel |-> newdel ]
 
+\* introduceMerge for SEVERAL tasks in one root swap (the code introduces all
+\* tasks of a merge plan / all in-memory flush batches together).  tasks is a
+\* sequence of [ins, new, docs]; skipped merged segments are not appended.
+IntroMergeMulti(sd, r, tasks, newIsFile) ==
+  LET allIns == UNION { tasks[t].ins : t \in DOMAIN tasks }
+      curDel(s) == IF s \in Sids(r) THEN EntryOf(r, s).del ELSE sd[s]
+      newdel(t) == { d \in tasks[t].docs : \E s \in tasks[t].ins : d \in sd[s] /\ d \in curDel(s) }
+      skip(t) == ~(Cardinality(tasks[t].docs) > Cardinality(newdel(t)))
+      stay == SelectSeq(r.segs, LAMBDA e : e.sid \notin allIns /\ e.del # sd[e.sid])
+      news == [ t \in DOMAIN tasks |-> [sid |-> tasks[t].new, del |-> newdel(t), f |-> newIsFile] ]
+      kept == SelectSeq([ t \in DOMAIN tasks |-> [e |-> news[t], sk |-> skip(t)] ], LAMBDA x : ~x.sk)
+  IN [ segs |-> stay \o [ i \in DOMAIN kept |-> kept[i].e ],
+       skipped |-> [ t \in DOMAIN tasks |-> skip(t) ] ]
+
 \* introducePersist: segments written by the persister become file segments
 IntroPersistResult(r, persisted) ==
   [ i \in 1..Len(r.segs) |-> IF r.segs[i].sid \in persisted THEN [r.segs[i] EXCEPT !.f = TRUE] ELSE r.segs[i] ]
